@@ -19,7 +19,8 @@
 //! Statefulness: sequences of near-duplicate PROJ definitions (same words, different line
 //! breaks around a '#' comment = different operations) go through ONE long-lived Plain
 //! context; each must behave like its counterpart in a fresh context, and earlier handles are
-//! re-checked at the end (section `context-sequences`).
+//! re-checked at the end; register_op calls of a trivial user operator under textually
+//! colliding names (proj, p, step, utm, ...) are interleaved (section `context-sequences`).
 //!
 //! Known defect classes are excluded by construction in the main section while they are
 //! listed as `known` (read from known_findings.json / known_findings.d/C17.json) and
@@ -31,7 +32,7 @@
 //! even if listed as known (e.g. against a patched checkout), `C17_DUMP=1` prints the texts
 //! of a replayed case.
 
-use geodesy::authoring::{parse_proj, Tokenize};
+use geodesy::authoring::{parse_proj, InnerOp, Op, OpConstructor, OpParameter, RawParameters, Tokenize};
 use geodesy::prelude::*;
 use proptest::prelude::*;
 use serde::{Deserialize, Serialize};
@@ -1644,6 +1645,53 @@ struct SeqCase {
     fams: Vec<Family>,
     items: Vec<(u16, Variant)>,
     probes: Vec<P4>,
+    /// register_op calls: (in front of which item, which name)
+    #[serde(default)]
+    regs: Vec<(u16, u16)>,
+}
+
+// A trivial user defined operator (a cousin of the library's `addone`), registered under
+// names chosen to collide textually with the definitions that follow
+fn add42_fwd(_op: &Op, _ctx: &dyn Context, operands: &mut dyn CoordinateSet) -> usize {
+    let n = operands.len();
+    for i in 0..n {
+        let mut o = operands.get_coord(i);
+        o[0] += 42.;
+        operands.set_coord(i, &o);
+    }
+    n
+}
+fn add42_inv(_op: &Op, _ctx: &dyn Context, operands: &mut dyn CoordinateSet) -> usize {
+    let n = operands.len();
+    for i in 0..n {
+        let mut o = operands.get_coord(i);
+        o[0] -= 42.;
+        operands.set_coord(i, &o);
+    }
+    n
+}
+const ADD42_GAMUT: [OpParameter; 1] = [OpParameter::Flag { key: "inv" }];
+fn add42_new(parameters: &RawParameters, ctx: &dyn Context) -> Result<Op, geodesy::Error> {
+    Op::plain(parameters, InnerOp(add42_fwd), Some(InnerOp(add42_inv)), &ADD42_GAMUT, ctx)
+}
+
+/// names of the operators a Geodesy definition invokes
+fn invoked_names(def: &str) -> Vec<String> {
+    def.split_into_steps().iter().map(|s| s.operator_name()).collect()
+}
+
+/// A fresh Plain context for a counterpart. It knows the user defined operators registered so
+/// far only if the counterpart names one of them (a user operator legitimately shadows the
+/// built-in of the same name, for the PROJ text and for its counterpart alike).
+fn fresh_for(reft: &str, registered: &[String]) -> (Plain, bool) {
+    let mut ctx = Plain::new();
+    let shadowed = invoked_names(reft).iter().any(|n| registered.contains(n));
+    if shadowed {
+        for r in registered {
+            ctx.register_op(r, OpConstructor(add42_new));
+        }
+    }
+    (ctx, shadowed)
 }
 
 #[derive(Clone, Debug, PartialEq)]
@@ -1832,13 +1880,40 @@ fn check_seq(c: &SeqCase, rec: &mut Rec) -> CaseResult {
     let told = |history: &[(String, String, Option<OpHandle>, Inst, usize)]| -> String {
         history.iter().enumerate().map(|(i, h)| format!("  #{i}: {}  (counterpart {})", esc(&h.0), esc(&h.1))).collect::<Vec<_>>().join("\n")
     };
-    for (fi, var) in &c.items {
+    let mut registered: Vec<String> = vec![];
+    let (mut n_prefix, mut n_shadow, mut n_regs) = (0u64, 0u64, 0u64);
+    for (idx, (fi, var)) in c.items.iter().enumerate() {
         let fx = pick(*fi, c.fams.len());
         let f = &c.fams[fx];
         let (text, eff) = render_variant(f, var);
         let reft = translate(&eff, Bugs::default());
+        // user defined operators registered in front of this definition
+        for (pos, name) in &c.regs {
+            if pick(*pos, c.items.len()) != idx {
+                continue;
+            }
+            let first_word = text.split_whitespace().next().unwrap_or("x").to_string();
+            let first_op = invoked_names(&reft).first().cloned().unwrap_or_default();
+            let pool: [&str; 12] = ["proj", "pro", "p", "step", "inv", "utm", "pipeline", "add42", "zz", "+proj", &first_word, &first_op];
+            let name = pool[pick(*name, pool.len())].to_string();
+            if name.is_empty() || name.contains(':') {
+                continue;
+            }
+            long.register_op(&name, OpConstructor(add42_new));
+            long_min.register_op(&name, OpConstructor(add42_new));
+            if !registered.contains(&name) {
+                registered.push(name);
+            }
+            n_regs += 1;
+        }
+        if registered.iter().any(|r| text.trim_start().starts_with(r.as_str())) {
+            n_prefix += 1;
+        }
         // the counterpart in a fresh context
-        let mut fresh = Plain::new();
+        let (mut fresh, shadowed) = fresh_for(&reft, &registered);
+        if shadowed {
+            n_shadow += 1;
+        }
         let rf = observe(&mut fresh, &reft, &probes)?;
         // the PROJ text in the long-lived context
         let (handle, lib) = match instantiate(&mut long, &text)? {
@@ -1847,16 +1922,18 @@ fn check_seq(c: &SeqCase, rec: &mut Rec) -> CaseResult {
         };
         if let Some(d) = differs(&lib, &rf, &probes) {
             // is it the history, or the text itself?
-            let mut alone = Plain::new();
+            let (mut alone, _) = fresh_for(&reft, &registered);
             let solo = observe(&mut alone, &text, &probes)?;
             let key = if differs(&solo, &rf, &probes).is_none() { K_CTX } else { "translation-changes-meaning" };
             vfail!(
                 key,
-                "PROJ text      : {}\nparse_proj     : {:?}\ncounterpart    : {}\nin a Plain context that has instantiated {} definition(s) before: {d}\nin a fresh Plain context the same text {}\nearlier in this context:\n{}",
+                "PROJ text      : {}\nparse_proj     : {:?}\ncounterpart    : {}\nin a Plain context that has instantiated {} definition(s) and registered the user operators {:?} (all the same trivial add-42 operator) before: {d}\nin a fresh Plain context{} the same text {}\nearlier in this context:\n{}",
                 esc(&text),
                 guard(|| parse_proj(&text)).map_err(|p| p.msg),
                 esc(&reft),
                 history.len(),
+                registered,
+                if shadowed { " (knowing the same user operators, one of which the counterpart names)" } else { " (no user operators)" },
                 if key == K_CTX { "behaves as its counterpart" } else { "differs from its counterpart as well" },
                 told(&history)
             );
@@ -1893,6 +1970,18 @@ fn check_seq(c: &SeqCase, rec: &mut Rec) -> CaseResult {
     }
     rec.class(&format!("items={}", history.len()));
     rec.count("definitions", history.len() as u64);
+    rec.count("register_op_calls", n_regs);
+    rec.count("definitions_with_a_registered_name_as_text_prefix", n_prefix);
+    rec.count("definitions_resolving_to_a_user_operator", n_shadow);
+    if n_regs > 0 {
+        rec.class("with-register_op");
+    }
+    if n_prefix > 0 {
+        rec.class("registered-name-is-prefix-of-a-later-text");
+    }
+    if n_shadow > 0 {
+        rec.class("user-operator-shadows-builtin");
+    }
     if dup_differ {
         rec.class("same-words-different-operation");
     }
@@ -1938,7 +2027,13 @@ fn seq_strategy() -> impl Strategy<Value = SeqCase> {
         },
     );
     let variant = (any::<u16>(), any::<u16>(), any::<u64>()).prop_map(|(a, b, ws)| Variant { a, b, ws });
-    (prop::collection::vec(family, 1..=3), prop::collection::vec((any::<u16>(), variant), 2..=8), probes_strategy()).prop_map(|(fams, items, probes)| SeqCase { fams, items, probes })
+    (
+        prop::collection::vec(family, 1..=3),
+        prop::collection::vec((any::<u16>(), variant), 2..=8),
+        probes_strategy(),
+        prop::collection::vec((any::<u16>(), any::<u16>()), 0..=3),
+    )
+        .prop_map(|(fams, items, probes, regs)| SeqCase { fams, items, probes, regs })
 }
 
 // ---- main --------------------------------------------------------------------------------------
@@ -2032,7 +2127,7 @@ fn main() {
     let n = run.scale(2_500, 60_000);
     run.section(
         "context-sequences",
-        "sequences of 2..8 PROJ definitions from 1..3 families through ONE Plain context; the variants of a family are the same words in the same order and differ only in whitespace, i.e. in where the line break ending a '#' comment falls and hence which tail parameters / following steps are commented out; each is compared (bitwise behaviour, counts, ctx.steps()) with its hand-written counterpart in a FRESH context, the counterparts also go through one long-lived Minimal context, and all earlier handles are re-checked at the end; non-trivial = holds two texts of equal words denoting different operations",
+        "sequences of 2..8 PROJ definitions from 1..3 families through ONE Plain context, interleaved with 0..3 register_op calls of a trivial user operator under names that collide textually with what follows (proj, pro, p, step, inv, utm, pipeline, the first word of the next text, the first operator of its counterpart, unrelated names; a counterpart naming a registered operator is instantiated in a fresh context knowing the same operators, otherwise in one without any); the variants of a family are the same words in the same order and differ only in whitespace, i.e. in where the line break ending a '#' comment falls and hence which tail parameters / following steps are commented out; each is compared (bitwise behaviour, counts, ctx.steps()) with its hand-written counterpart in a FRESH context, the counterparts also go through one long-lived Minimal context, and all earlier handles are re-checked at the end; non-trivial = holds two texts of equal words denoting different operations",
         n,
         seq_strategy,
         check_seq,
